@@ -219,7 +219,7 @@ p = prop("C09", engine="mir2smt",
          bounds="key universe 3; 64-bit counters; n < 2^61, any width >= 1 (symbolic) for add; query: width in {1,2,4,8,16,32,64} (epsilon = 1/width exact), threshold a/64, n < 2^20",
          outside=["the table-size bound width*(H(ceil(n/width))+1): a counting argument over whole histories, not a step property — not decided",
                   "with_epsilon for epsilon that is not 1/width", "alphabets larger than 3 keys (the invariant is per key; interaction is only through n)"],
-         assumptions=MC_ASSUME + ["Div/Rem by the symbolic width are uninterpreted functions + division lemma and its successor form (the latter discharged on 16-bit words with real bvudiv/bvurem)",
+         assumptions=MC_ASSUME + ["Div/Rem by the symbolic width are uninterpreted functions + division lemma and its successor form (the latter discharged over mathematical integers (unbounded) and on all 8-bit words with real bvudiv/bvurem)",
                                   "ghost T[x] = true count of x; invariant (A): tracked x: f>=1, f<=T<=f+delta, delta<=ceil(n/w)-1; untracked x: T<=floor(n/w); sum T = n"])
 p["units"] += [
     M("lossy_add_step", "quick", "one add(y) from any state satisfying the invariant: n+1, returns true iff y untracked, invariant re-established; no panic", "K=3, 64-bit", model="lossy", what_m="add", need_witness=["ret", "pruned_at_window_end"], timeout_s=2400),
@@ -227,7 +227,7 @@ p["units"] += [
 ]
 for w in (1, 2, 4, 16, 64):
     p["units"].append(M("lossy_query_w%d" % w, "quick" if w in (2, 16) else "thorough", "from the invariant: query(a/64) contains every x with T>=s*n and T>eps*n and no x with T<(s-eps)*n", "width=%d, n<2^20" % w,
-                        model="lossy", what_m="query", width=w, need_witness=["frequent_exists"], timeout_s=2400))
+                        model="lossy", what_m="query", width=w, need_witness=["frequent_exists"], timeout_s=2400, thresholds=([0, 1, 16, 31, 32, 33, 48, 63, 64] if w in (2, 16) else None)))
 # --------------------------------------------------------------------------- C10
 p = prop("C10", engine="mir2smt",
          technique="symbolic execution of the crate's MIR into SMT (z3): inductive top-k invariant over HashMap/BTreeSet/Rc contracts, sketch replaced by the C02 contract",
@@ -241,4 +241,153 @@ p["units"] += [
     M("heap_add_step", "quick", "one add(y) from any state satisfying the top-k invariant: no panic (incl. debug_assert), invariant re-established", "K=3, k<=2", model="heap", what_m="add", kmax=2, need_witness=["ret", "kicked_out_minimum", "first_seen_with_inflated_estimate"]),
     M("heap_consequences", "quick", "the statement's clauses follow from the invariant: |iter| = min(k, distinct seen), all added, missing x => k tracked with T >= T[x]-E", "K=3, k<=2", model="heap", what_m="consequences", kmax=2),
     M("heap_clear", "quick", "clear empties map, tree and sketch; is_empty iff nothing tracked", "K=3", model="heap", what_m="clear", need_witness=["ret"]),
+]
+
+# --------------------------------------------------------------------------- C20
+p = prop("C20", engine="kani",
+         functions=["<HyperLogLog as Deserialize>::deserialize (Field visitor, HyperLogLogVisitor::visit_map)", "<HyperLogLog as Serialize>::serialize", "HyperLogLog::{add_hashed,merge,clone,eq}"],
+         bounds={"quick": "18 document shapes (all 6 field orders, omissions, duplicates, empty; register counts 0,1,15,16,17), in each b any u64 and every register any u8; round trip of every b=4 sketch",
+                 "thorough": "adds register lengths {31,32,33}"},
+         outside=["JSON/other text formats (serde_json is not encoded; the serde data model is the interface the crate is written against)", "b >= 6 accepted documents (2^b registers) — acceptance logic is identical, length relation is checked symbolically in b"],
+         assumptions=COMMON_K_ASSUME + ["harness Deserializer/MapAccess/Serializer implement the serde data model; the error type discards messages (no formatting)"])
+p["units"] += [
+    K("h_serde::serde_deser_rbh_len16", "quick", "deserialize(document of this shape, any b, any register contents) is Err or satisfies 4<=b<=18 and len=2^b; then add/merge do not panic; valid documents are accepted", "rbh_len16", mem_class_gb=4, timeout_s=1800, must_cover=["accepted", "rejected_b_mismatch"]),
+    K("h_serde::serde_deser_hbr_len16", "quick", "deserialize(document of this shape, any b, any register contents) is Err or satisfies 4<=b<=18 and len=2^b; then add/merge do not panic; valid documents are accepted", "hbr_len16", mem_class_gb=4, timeout_s=1800, must_cover=["accepted", "rejected_b_mismatch"]),
+    K("h_serde::serde_deser_rbh_len0", "quick", "deserialize(document of this shape, any b, any register contents) is Err or satisfies 4<=b<=18 and len=2^b; then add/merge do not panic; valid documents are accepted", "rbh_len0", mem_class_gb=4, timeout_s=1800, must_cover=[]),
+    K("h_serde::serde_deser_rbh_len1", "quick", "deserialize(document of this shape, any b, any register contents) is Err or satisfies 4<=b<=18 and len=2^b; then add/merge do not panic; valid documents are accepted", "rbh_len1", mem_class_gb=4, timeout_s=1800, must_cover=[]),
+    K("h_serde::serde_deser_rbh_len15", "quick", "deserialize(document of this shape, any b, any register contents) is Err or satisfies 4<=b<=18 and len=2^b; then add/merge do not panic; valid documents are accepted", "rbh_len15", mem_class_gb=4, timeout_s=1800, must_cover=[]),
+    K("h_serde::serde_deser_rbh_len17", "quick", "deserialize(document of this shape, any b, any register contents) is Err or satisfies 4<=b<=18 and len=2^b; then add/merge do not panic; valid documents are accepted", "rbh_len17", mem_class_gb=4, timeout_s=1800, must_cover=[]),
+    K("h_serde::serde_deser_bhr_len17", "quick", "deserialize(document of this shape, any b, any register contents) is Err or satisfies 4<=b<=18 and len=2^b; then add/merge do not panic; valid documents are accepted", "bhr_len17", mem_class_gb=4, timeout_s=1800, must_cover=[]),
+    K("h_serde::serde_deser_rhb_len16", "quick", "deserialize(document of this shape, any b, any register contents) is Err or satisfies 4<=b<=18 and len=2^b; then add/merge do not panic; valid documents are accepted", "rhb_len16", mem_class_gb=4, timeout_s=1800, must_cover=["accepted", "rejected_b_mismatch"]),
+    K("h_serde::serde_deser_brh_len16", "quick", "deserialize(document of this shape, any b, any register contents) is Err or satisfies 4<=b<=18 and len=2^b; then add/merge do not panic; valid documents are accepted", "brh_len16", mem_class_gb=4, timeout_s=1800, must_cover=["accepted", "rejected_b_mismatch"]),
+    K("h_serde::serde_deser_bhr_len16", "quick", "deserialize(document of this shape, any b, any register contents) is Err or satisfies 4<=b<=18 and len=2^b; then add/merge do not panic; valid documents are accepted", "bhr_len16", mem_class_gb=4, timeout_s=1800, must_cover=["accepted", "rejected_b_mismatch"]),
+    K("h_serde::serde_deser_hrb_len16", "quick", "deserialize(document of this shape, any b, any register contents) is Err or satisfies 4<=b<=18 and len=2^b; then add/merge do not panic; valid documents are accepted", "hrb_len16", mem_class_gb=4, timeout_s=1800, must_cover=["accepted", "rejected_b_mismatch"]),
+    K("h_serde::serde_deser_missing_bh", "quick", "deserialize(document of this shape, any b, any register contents) is Err or satisfies 4<=b<=18 and len=2^b; then add/merge do not panic; valid documents are accepted", "missing_bh", mem_class_gb=4, timeout_s=1800, must_cover=[]),
+    K("h_serde::serde_deser_missing_b", "quick", "deserialize(document of this shape, any b, any register contents) is Err or satisfies 4<=b<=18 and len=2^b; then add/merge do not panic; valid documents are accepted", "missing_b", mem_class_gb=4, timeout_s=1800, must_cover=[]),
+    K("h_serde::serde_deser_missing_regs", "quick", "deserialize(document of this shape, any b, any register contents) is Err or satisfies 4<=b<=18 and len=2^b; then add/merge do not panic; valid documents are accepted", "missing_regs", mem_class_gb=4, timeout_s=1800, must_cover=[]),
+    K("h_serde::serde_deser_dup_regs", "quick", "deserialize(document of this shape, any b, any register contents) is Err or satisfies 4<=b<=18 and len=2^b; then add/merge do not panic; valid documents are accepted", "dup_regs", mem_class_gb=4, timeout_s=1800, must_cover=[]),
+    K("h_serde::serde_deser_dup_b", "quick", "deserialize(document of this shape, any b, any register contents) is Err or satisfies 4<=b<=18 and len=2^b; then add/merge do not panic; valid documents are accepted", "dup_b", mem_class_gb=4, timeout_s=1800, must_cover=[]),
+    K("h_serde::serde_deser_dup_bh", "quick", "deserialize(document of this shape, any b, any register contents) is Err or satisfies 4<=b<=18 and len=2^b; then add/merge do not panic; valid documents are accepted", "dup_bh", mem_class_gb=4, timeout_s=1800, must_cover=[]),
+    K("h_serde::serde_deser_empty", "quick", "deserialize(document of this shape, any b, any register contents) is Err or satisfies 4<=b<=18 and len=2^b; then add/merge do not panic; valid documents are accepted", "empty", mem_class_gb=4, timeout_s=1800, must_cover=[]),
+    K("h_serde::serde_deser_rbh_len32", "thorough", "same at 32 registers", "rbh_len32", mem_class_gb=6, timeout_s=3000),
+    K("h_serde::serde_deser_rbh_len31", "thorough", "same at 32 registers", "rbh_len31", mem_class_gb=6, timeout_s=3000),
+    K("h_serde::serde_deser_rbh_len33", "thorough", "same at 32 registers", "rbh_len33", mem_class_gb=6, timeout_s=3000),
+    K("h_serde::serde_roundtrip_b4", "quick", "serialize -> deserialize gives an equal sketch with the same reaction to add", "b=4", mem_class_gb=6, timeout_s=3000),
+    K("h_hll::hll_count_no_panic_b4", "quick", "count() returns for any register contents (b=4); the empty sketch counts 0", "b=4", mem_class_gb=10, timeout_s=3000),
+]
+
+# --------------------------------------------------------------------------- C01
+p = prop("C01", engine="kani+mir2smt",
+         technique="bounded model checking (Kani/CBMC) of one-step inductive harnesses for Bloom and the quotient filter; symbolic execution of the MIR into SMT (z3) for the cuckoo filter and the HashSet compat impl",
+         functions=["BloomFilter::{insert,query,union}", "HashIterBuilder::iter_for / HashIter::next", "QuotientFilter::{insert,query,union,scan,insert_internal}",
+                    "CuckooFilter::{insert,delete,query,union,insert_internal,write_to_bucket,remove_from_bucket,restore_state}", "<HashSet as Filter>::{insert,query,union,clear,len,is_empty}"],
+         bounds={"quick": "Bloom (m,k) in {(7,3),(1,1),(64,2)} from arbitrary bit states; QF (2,2) from every reachable state (+ union at (1,2)); cuckoo 4 slots, chains <=2/<=4, union of arbitrary tables chains <=1; HashSet over 3 keys",
+                 "thorough": "adds Bloom (130,2), QF (1,2),(1,1), cuckoo 8 slots / chains <=6 / union chains <=2"},
+         outside=["tables larger than 8 slots (cuckoo) / 4 slots (QF)", "eviction chains longer than 6", "Bloom m > 130"],
+         assumptions=COMMON_K_ASSUME + QF_ASSUME[-2:] + M_ASSUME[:5] + ["induction: (a) insert(x) makes query(x) true, (b) every later operation (successful or failed) keeps a present element present; clear() restarts"])
+for cfg, tier in BLOOM_CFGS:
+    p["units"] += [
+        K("h_bloom::bloom_insert_query_" + cfg, tier, "Bloom: insert(x) then query(x), from an arbitrary bit state", cfg),
+        K("h_bloom::bloom_stable_" + cfg, tier, "Bloom: a present element stays present across insert(y)", cfg),
+        K("h_bloom::bloom_union_" + cfg, tier, "Bloom: after a.union(&b) every element present in a or b is present in a", cfg),
+    ]
+p["units"] += [
+    K("h_qf::qf_member_stays_q2r2", "quick", "QF: a member stays a member across insert(y) (Ok or Err(Full)); an inserted element is a member", "(2,2)", mem_class_gb=8, timeout_s=2400),
+    K("h_qf::qf_union_vs_enc_q1r2", "quick", "QF: union Ok => state = enc(X u Y) (superset of both); Err => enc(X)", "(1,2)", mem_class_gb=8, timeout_s=3600),
+    K("h_qf::qf_member_stays_q1r2", "thorough", "QF member stays", "(1,2)", mem_class_gb=8, timeout_s=2400),
+]
+for (bs, nb, kicks, tier) in [(2, 2, 2, "quick"), (2, 2, 4, "quick"), (2, 4, 2, "thorough"), (2, 2, 6, "thorough")]:
+    tag = "bs%dnb%dk%d" % (bs, nb, kicks)
+    p["units"].append(M("ck_insert_" + tag, tier, "cuckoo: Ok(insert x) => a copy of class(x) is stored; every other class keeps its copies (Ok and Err)", tag,
+                        model="cuckoo", op="insert", bs=bs, nb=nb, kicks=kicks, need_witness=["ok", "err"], timeout_s=3600))
+p["units"].append(M("ck_delete_bs2nb2", "quick", "cuckoo: delete(y) removes one copy of class(y) only: x stays present if class differs or >= 2 copies", "bs2nb2", model="cuckoo", op="delete", bs=2, nb=2, kicks=2, need_witness=["ret"]))
+p["units"].append(M("ck_query_bs2nb2", "quick", "cuckoo: query(x) iff a copy of class(x) is stored", "bs2nb2", model="cuckoo", op="query", bs=2, nb=2, kicks=2, need_witness=["ret"]))
+for pat in (0x3, 0x5, 0x9, 0xf, 0x6, 0xa):
+    p["units"].append(M("ck_union_bs2nb2k1_b%x" % pat, "quick" if pat in (0x3, 0xf) else "thorough", "cuckoo union: Ok => counts add (nothing lost); Err => unchanged", "4+4 slots, <=1 kick", model="cuckoo", op="union", bs=2, nb=2, kicks=1, b_mask=pat, timeout_s=3600))
+p["units"].append(M("compat_hashset", "quick", "HashSet as Filter: query is contains, insert returns Ok(set.insert(clone)), union extends with every element of other, len/is_empty/clear delegate", "3 keys", model="kernel", kernel="compat_hashset"))
+
+# --------------------------------------------------------------------------- C06
+p = prop("C06", engine="kani+mir2smt",
+         technique="bounded model checking (Kani/CBMC) of homomorphism lemmas on arbitrary states (Bloom, CMS, HLL, QF 2 slots); symbolic execution of the MIR into SMT for the cuckoo filter",
+         functions=["BloomFilter::{union,insert}", "CountMinSketch::{merge,add_n}", "HyperLogLog::{merge,add_hashed}", "QuotientFilter::union", "CuckooFilter::union"],
+         bounds={"quick": "Bloom (7,3),(1,1),(64,2); CMS (3,2),(2,3),(1,1) u8; HLL b=4; QF union (1,2) both operands arbitrary; cuckoo union 4+4 slots chains <=1 (all 16 occupancy patterns of other)",
+                 "thorough": "adds Bloom (130,2), CMS wider counters, QF (1,1), cuckoo chains <=2"},
+         outside=["QF union on 4 slots", "cuckoo union on more than 4 slots"],
+         assumptions=COMMON_K_ASSUME + QF_ASSUME[-2:] + M_ASSUME[:5] + ["algebraic decomposition: merge = cell-wise OR / sum / max and add = merge with the singleton structure, all observers are functions of the raw state => stream-equivalence, commutativity, associativity, idempotence"])
+for cfg, tier in BLOOM_CFGS:
+    p["units"] += [K("h_bloom::bloom_union_" + cfg, tier, "Bloom union = bitwise OR, other unchanged", cfg),
+                   K("h_bloom::bloom_insert_or_" + cfg, tier, "Bloom insert(x) on any state = state | singleton(x)", cfg)]
+for cfg, tier in CMS_CFGS:
+    p["units"] += [K("h_cms::cms_merge_" + cfg, tier, "CMS merge = cell-wise sum, other unchanged", cfg),
+                   K("h_cms::cms_singleton_" + cfg, tier, "CMS add_n on any table = table + add_n on the zero table", cfg)]
+p["units"] += [
+    K("h_hll::hll_merge_max_b4", "quick", "HLL merge = register-wise max; idempotent (twice / with itself); other unchanged"),
+    K("h_hll::hll_merge_algebra_b4", "quick", "HLL merge commutative and associative on three arbitrary register vectors"),
+    K("h_hll::hll_add_is_merge_singleton_b4", "quick", "HLL add_hashed = merge with the singleton sketch"),
+    K("h_qf::qf_union_vs_enc_q1r2", "quick", "QF union(enc X, enc Y): Ok iff |X u Y| <= 2^q, state = enc(X u Y) (set only => commutative, associative, idempotent), other untouched", "(1,2)", mem_class_gb=8, timeout_s=3600),
+    K("h_qf::qf_union_vs_enc_q1r1", "thorough", "QF union", "(1,1)", mem_class_gb=8, timeout_s=3600),
+]
+for pat in range(16):
+    p["units"].append(M("ck_union_bs2nb2k1_b%x" % pat, "quick", "cuckoo a.union(&b), b's occupancy pattern %s: Ok => len adds, every class count adds, b unchanged" % format(pat, "04b"),
+                        "4+4 slots, <=1 kick", model="cuckoo", op="union", bs=2, nb=2, kicks=1, b_mask=pat, timeout_s=3600, need_witness=(["ok"] if pat == 0 else [])))
+for pat in range(16):
+    p["units"].append(M("ck_union_bs2nb2k2_b%x" % pat, "thorough", "cuckoo union, <=2 kicks, pattern %s" % format(pat, "04b"), "4+4 slots, <=2 kicks", model="cuckoo", op="union", bs=2, nb=2, kicks=2, b_mask=pat, timeout_s=7200))
+
+# --------------------------------------------------------------------------- C19
+p = prop("C19", engine="kani+mir2smt",
+         functions=["clear/clone/is_empty of BloomFilter, CuckooFilter, QuotientFilter, CountMinSketch, HyperLogLog, TDigest, ReservoirSampling (Kani); LossyCounter, CMSHeap (engine M)"],
+         bounds="per structure as in C01/C02/C13/C14/C15/C17/C18/C09/C10 (small tables, arbitrary contents)",
+         outside=["TDigest with K1 (asin is an FFI call Kani cannot model); K2/K3 are covered through a probe ScaleFunction that records the n it is given"],
+         assumptions=COMMON_K_ASSUME + MC_ASSUME[:2] + ["clear == fresh is checked on raw parts (then every continuation is identical given the same RNG stream; the RNG itself is deliberately not reset or compared)"])
+p["units"] += [
+    K("h_bloom::bloom_clear_clone_m7k3", "quick", "Bloom clear/clone"), K("h_bloom::bloom_clear_clone_m64k2", "quick", "Bloom clear/clone"),
+    K("h_bloom::bloom_is_empty_m7k3", "quick", "Bloom is_empty iff no bit set"),
+    K("h_cms::cms_clear_clone_w3d2_u8", "quick", "CMS clear/clone/is_empty"), K("h_cms::cms_clear_clone_w2d3_u8", "quick", "CMS clear/clone"),
+    K("h_hll::hll_clear_clone_b4", "quick", "HLL clear/clone/is_empty"),
+    K("h_qf::qf_clear_clone_q2r2", "quick", "QF clear/clone", mem_class_gb=8, timeout_s=2400), K("h_qf::qf_fresh_q2r2", "quick", "QF new is empty"),
+    K("h_cuckoo::ck_clear_clone", "quick", "cuckoo clear/clone", features=["kicks2"], mem_class_gb=10, timeout_s=2400),
+    K("h_reservoir::reservoir_clear_clone_k1", "quick", "reservoir clear/clone"), K("h_reservoir::reservoir_clear_clone_k3", "quick", "reservoir clear/clone"),
+    K("h_tdigest::td_clear_clone", "quick", "TDigest clear/clone raw parts", mem_class_gb=8, timeout_s=2400),
+    K("h_tdigest::td_clear_resets_n_for_scale_fn", "quick", "TDigest: after clear the scale function sees n as in a fresh digest", mem_class_gb=8, timeout_s=2400),
+    K("h_tdigest::td_insert_step_c0b0", "quick", "TDigest is_empty / zero weight"),
+    M("lossy_new_clear_clone", "quick", "LossyCounter clear == with_width state; clone equal", "K=3", model="lossy", what_m="new_clear_clone", need_witness=["ret", "clear_ret"]),
+    M("heap_clear", "quick", "CMSHeap clear empties map, tree, sketch; is_empty", "K=3", model="heap", what_m="clear", need_witness=["ret"]),
+    K("h_bloom::bloom_clear_clone_m1k1", "thorough", "Bloom clear/clone"), K("h_bloom::bloom_clear_clone_m130k2", "thorough", "Bloom clear/clone"),
+    K("h_cms::cms_clear_clone_w2d3_u64", "thorough", "CMS clear/clone"), K("h_qf::qf_clear_clone_q1r2", "thorough", "QF clear/clone", mem_class_gb=8, timeout_s=2400),
+]
+
+# --------------------------------------------------------------------------- C05
+p = prop("C05", engine="kani",
+         technique="bounded model checking (Kani/CBMC) of the per-step sampling-law conditions that are equivalent to uniformity under the contract that rand's samplers are uniform on the requested range",
+         functions=["ReservoirSampling::add (all three phases)", "rand::Rng::gen_range (real sampler; wmul kernel stubbed, requested range observed)"],
+         bounds="k in {1,2,3}; i symbolic in [k, 2^20]; every RNG word arbitrary; ln replaced by a sound over-approximation (1-1/x <= ln x <= x-1)",
+         outside=["the size of the bias inherent in the documented gap-sampling approximation for n >> 4k (no reference law to compare with beyond the two robust gap implications)",
+                  "a different-but-also-uniform sampling scheme would fail the structural conditions (accepted, see level_note)", "k > 3, i > 2^20"],
+         assumptions=COMMON_K_ASSUME + ["rand 0.8 samplers are uniform on the range they are asked for (trusted); the requested range and the drawn value are observed through the wmul stub",
+                                        "Algorithm R induction: if each step draws j uniformly from i+1 values and stores iff j<k in slot j, every position is kept with probability k/n; geometric-gap argument for the skipping phase",
+                                        "f64::ln is stubbed by a sound over-approximation; the gap implications only use elementary bounds that hold for any libm"])
+p["level_note_extra"] = "structural form of the property: uniformity itself is a probability over the RNG and is reduced to universally quantified per-step conditions"
+for k in (1, 2, 3):
+    p["units"].append(K("h_reservoir::c05_reservoir_phase_k%d" % k, "quick", "reservoir phase: one integer draw from exactly i+1 values; stored iff draw < k, in that slot", "k=%d" % k))
+    p["units"].append(K("h_reservoir::c05_gap_phase_k%d" % k, "quick", "skipping phase: skipped items change nothing; accepted item goes to a slot drawn from k values; next gap certainly 0 / certainly >0 in the robust u ranges", "k=%d" % k,
+                        must_cover=["item_skipped", "next_item_accepted", "next_item_skipped"]))
+for k in (1, 2):
+    p["units"].append(K("h_reservoir::c05_switch_k%d" % k, "quick", "the item at the phase switch (i=4k) is not forced into the reservoir: both outcomes possible", "k=%d" % k,
+                        must_cover=["switch_item_can_be_skipped", "switch_item_can_be_kept"]))
+
+# --------------------------------------------------------------------------- C07
+p = prop("C07", engine="kani",
+         technique="bounded model checking (Kani/CBMC) of the sizing arithmetic and of the fingerprint / quotient-remainder kernels with symbolic (n, p); ln/log2 replaced by sound over-approximations",
+         functions=["BloomFilter::with_properties_and_hash", "CuckooFilter::{with_properties_and_hash_4,with_properties_and_hash_8,with_properties_and_hash_n,fingerprint,hash,start}", "QuotientFilter::calc_quotient_remainder"],
+         bounds="Bloom: n in [1,16], p any f64 in [2^-8, 1); cuckoo: n in [1,1024], p any f64 in [2^-40, 1); fingerprint kernel: every l in [2,64], n_buckets 2..2^20, full 64-bit hash words; QF kernel: q in [1,7], every admissible r, full 64-bit hashes",
+         outside=["PARTIAL CLAIM: the false-positive frequencies themselves and BloomFilter::len() accuracy are distributions over hasher seeds and probe elements — not decided by any check here",
+                  "p < 2^-40 for the cuckoo constructors (l_fingerprint would exceed 64 and the constructor panics by design)", "Bloom n > 16 (m grows with n; the arithmetic is the same)"],
+         assumptions=COMMON_K_ASSUME + ["f64::ln / f64::log2 are stubbed by sound over-approximations: log2 exact on powers of two and strictly between neighbouring integers otherwise; 1-1/x <= ln x <= x-1, ln 2 exact",
+                                        "decided: usability (k>=1, m>=1, no panic on insert/query), cuckoo l in [2,64] with 2*bucketsize/2^l <= p < 2*bucketsize/2^(l-1), power-of-two n_buckets with capacity*load >= n, fingerprint in [1,2^l-1], bucket < n_buckets, quotient/remainder = split of the low q+r bits"])
+p["units"] += [
+    K("h_sizing::sizing_bloom_usable", "quick", "Bloom from (n,p): k>=1, m>=1, insert/query do not panic", "n<=16, p>=2^-8", mem_class_gb=8, timeout_s=2400),
+    K("h_sizing::sizing_cuckoo4_usable", "quick", "cuckoo_4 from (p,n): 2<=l<=64 matching the rate, power-of-two buckets, capacity for n at load 0.95", "n<=1024, p>=2^-40", mem_class_gb=8, timeout_s=2400),
+    K("h_sizing::sizing_cuckoo8_usable", "quick", "cuckoo_8 from (p,n)", "n<=1024, p>=2^-40", mem_class_gb=8, timeout_s=2400),
+    K("h_sizing::sizing_qf_quotient_remainder_kernel", "quick", "QF quotient/remainder = split of the low q+r hash bits", "q<=7, all r", mem_class_gb=6, timeout_s=2400),
+    K("h_cuckoo::ck_fingerprint_kernel", "quick", "cuckoo fingerprint in [1, 2^l-1], buckets in range, alternate bucket is an involution", "l in [2,64], n_buckets <= 2^20", mem_class_gb=6, timeout_s=2400),
 ]
